@@ -1,40 +1,72 @@
 import TapkeeVerif.Proofs.ParamsEvalBase
-/- per-method verdicts, part 3 (split over several files so that they elaborate in parallel) -/
+/- per-method verdicts, part 3 (split over several files so that they elaborate in parallel):
+   one symbolic evaluation of the generated tables per method and per value of `hasF` (which fixes `current_dimension`) -/
 set_option linter.unusedSimpArgs false
 namespace TapkeeVerif.Params
 open TapkeeVerif.Front TapkeeVerif.Gen TapkeeVerif.C14
 
-theorem verdict_SPE_local (r : Request) (t : TypedVals) (ps : PSet) (hget : ∀ k, ps.get k = t.get k)
-    (hm : t.meth .method = .StochasticProximityEmbedding) (hg : t.bool .spe_global_strategy = false) :
-    Verdict .StochasticProximityEmbedding r t (afterMerge r ps) := by
-  front_simp [hget, hm, hg]
+theorem verdict_Isomap_f (r : Request) (t : TypedVals) (ps : PSet) (hget : ∀ k, ps.get k = t.get k)
+    (hm : t.meth .method = .Isomap) (hF : r.hasF = true) : Verdict .Isomap r t (afterMerge r ps) := by
+  front_simp [hget, hm, hF]
   split_ifs <;> verdict_leaf
 
-theorem verdict_SPE_global (r : Request) (t : TypedVals) (ps : PSet) (hget : ∀ k, ps.get k = t.get k)
-    (hm : t.meth .method = .StochasticProximityEmbedding) (hg : t.bool .spe_global_strategy = true) :
-    Verdict .StochasticProximityEmbedding r t (afterMerge r ps) := by
-  front_simp [hget, hm, hg]
+theorem verdict_Isomap_nof (r : Request) (t : TypedVals) (ps : PSet) (hget : ∀ k, ps.get k = t.get k)
+    (hm : t.meth .method = .Isomap) (hF : r.hasF = false) : Verdict .Isomap r t (afterMerge r ps) := by
+  front_simp [hget, hm, hF]
   split_ifs <;> verdict_leaf
 
-theorem verdict_StochasticProximityEmbedding (r : Request) (t : TypedVals) (ps : PSet) (hget : ∀ k, ps.get k = t.get k)
-    (hm : t.meth .method = .StochasticProximityEmbedding) : Verdict .StochasticProximityEmbedding r t (afterMerge r ps) := by
-  cases hg : t.bool .spe_global_strategy
-  · exact verdict_SPE_local r t ps hget hm hg
-  · exact verdict_SPE_global r t ps hget hm hg
+theorem verdict_Isomap (r : Request) (t : TypedVals) (ps : PSet) (hget : ∀ k, ps.get k = t.get k)
+    (hm : t.meth .method = .Isomap) : Verdict .Isomap r t (afterMerge r ps) := by
+  cases hF : r.hasF
+  · exact verdict_Isomap_nof r t ps hget hm hF
+  · exact verdict_Isomap_f r t ps hget hm hF
 
-theorem verdict_KernelPrincipalComponentAnalysis (r : Request) (t : TypedVals) (ps : PSet) (hget : ∀ k, ps.get k = t.get k)
-    (hm : t.meth .method = .KernelPrincipalComponentAnalysis) : Verdict .KernelPrincipalComponentAnalysis r t (afterMerge r ps) := by
-  front_simp [hget, hm]
+theorem verdict_LandmarkIsomap_f (r : Request) (t : TypedVals) (ps : PSet) (hget : ∀ k, ps.get k = t.get k)
+    (hm : t.meth .method = .LandmarkIsomap) (hF : r.hasF = true) : Verdict .LandmarkIsomap r t (afterMerge r ps) := by
+  front_simp [hget, hm, hF]
   split_ifs <;> verdict_leaf
 
-theorem verdict_PrincipalComponentAnalysis (r : Request) (t : TypedVals) (ps : PSet) (hget : ∀ k, ps.get k = t.get k)
-    (hm : t.meth .method = .PrincipalComponentAnalysis) : Verdict .PrincipalComponentAnalysis r t (afterMerge r ps) := by
-  front_simp [hget, hm]
+theorem verdict_LandmarkIsomap_nof (r : Request) (t : TypedVals) (ps : PSet) (hget : ∀ k, ps.get k = t.get k)
+    (hm : t.meth .method = .LandmarkIsomap) (hF : r.hasF = false) : Verdict .LandmarkIsomap r t (afterMerge r ps) := by
+  front_simp [hget, hm, hF]
   split_ifs <;> verdict_leaf
 
-theorem verdict_RandomProjection (r : Request) (t : TypedVals) (ps : PSet) (hget : ∀ k, ps.get k = t.get k)
-    (hm : t.meth .method = .RandomProjection) : Verdict .RandomProjection r t (afterMerge r ps) := by
-  front_simp [hget, hm]
+theorem verdict_LandmarkIsomap (r : Request) (t : TypedVals) (ps : PSet) (hget : ∀ k, ps.get k = t.get k)
+    (hm : t.meth .method = .LandmarkIsomap) : Verdict .LandmarkIsomap r t (afterMerge r ps) := by
+  cases hF : r.hasF
+  · exact verdict_LandmarkIsomap_nof r t ps hget hm hF
+  · exact verdict_LandmarkIsomap_f r t ps hget hm hF
+
+theorem verdict_MultidimensionalScaling_f (r : Request) (t : TypedVals) (ps : PSet) (hget : ∀ k, ps.get k = t.get k)
+    (hm : t.meth .method = .MultidimensionalScaling) (hF : r.hasF = true) : Verdict .MultidimensionalScaling r t (afterMerge r ps) := by
+  front_simp [hget, hm, hF]
   split_ifs <;> verdict_leaf
+
+theorem verdict_MultidimensionalScaling_nof (r : Request) (t : TypedVals) (ps : PSet) (hget : ∀ k, ps.get k = t.get k)
+    (hm : t.meth .method = .MultidimensionalScaling) (hF : r.hasF = false) : Verdict .MultidimensionalScaling r t (afterMerge r ps) := by
+  front_simp [hget, hm, hF]
+  split_ifs <;> verdict_leaf
+
+theorem verdict_MultidimensionalScaling (r : Request) (t : TypedVals) (ps : PSet) (hget : ∀ k, ps.get k = t.get k)
+    (hm : t.meth .method = .MultidimensionalScaling) : Verdict .MultidimensionalScaling r t (afterMerge r ps) := by
+  cases hF : r.hasF
+  · exact verdict_MultidimensionalScaling_nof r t ps hget hm hF
+  · exact verdict_MultidimensionalScaling_f r t ps hget hm hF
+
+theorem verdict_LandmarkMultidimensionalScaling_f (r : Request) (t : TypedVals) (ps : PSet) (hget : ∀ k, ps.get k = t.get k)
+    (hm : t.meth .method = .LandmarkMultidimensionalScaling) (hF : r.hasF = true) : Verdict .LandmarkMultidimensionalScaling r t (afterMerge r ps) := by
+  front_simp [hget, hm, hF]
+  split_ifs <;> verdict_leaf
+
+theorem verdict_LandmarkMultidimensionalScaling_nof (r : Request) (t : TypedVals) (ps : PSet) (hget : ∀ k, ps.get k = t.get k)
+    (hm : t.meth .method = .LandmarkMultidimensionalScaling) (hF : r.hasF = false) : Verdict .LandmarkMultidimensionalScaling r t (afterMerge r ps) := by
+  front_simp [hget, hm, hF]
+  split_ifs <;> verdict_leaf
+
+theorem verdict_LandmarkMultidimensionalScaling (r : Request) (t : TypedVals) (ps : PSet) (hget : ∀ k, ps.get k = t.get k)
+    (hm : t.meth .method = .LandmarkMultidimensionalScaling) : Verdict .LandmarkMultidimensionalScaling r t (afterMerge r ps) := by
+  cases hF : r.hasF
+  · exact verdict_LandmarkMultidimensionalScaling_nof r t ps hget hm hF
+  · exact verdict_LandmarkMultidimensionalScaling_f r t ps hget hm hF
 
 end TapkeeVerif.Params
